@@ -31,7 +31,7 @@ META = {
                   'class:double-compromise': 500, 'class:undo-not-compromised': 500, 'class:remove-with-many-reached': 100,
                   'class:remove-with-zero-reached': 50, 'attach-compared': 80, 'class:attach-overlapping-entry-points': 50,
                   'class:attach-unknown-step': 20, 'class:compromise-before-add': 100, 'exhaustive-histories': 10000,
-                  'attach-variant:second-graph': 15, 'attach-variant:copy': 15, 'attach-variant:entry-node-removed': 15,
+                  'attach-variant:second-graph': 12, 'attach-variant:attach-again-after-regenerate': 12, 'class:first-attach-with-a-missing-entry-node': 10, 'class:refused-add_attacker': 300, 'attach-variant:copy': 12, 'attach-variant:entry-node-removed': 12,
                   'class:add_attacker-entry-points-only': 50, 'class:add_attacker-all-defaults': 50},
         'thorough': {'steps-checked': 5000000, 'op:remove_attacker': 100000, 'attach-compared': 20000, 'exhaustive-histories': 400000},
     },
@@ -122,6 +122,25 @@ def run_history(desc_n, n_att, history, res, count=True):
                     n = g.get_node_by_id(j)
                     if not any(x is atts[i] for x in n.compromised_by):
                         return ('compromise:add_attacker-reached-not-compromised', '%s: node %s does not list the added attacker' % (where, j))
+            elif kind == 'addbad':
+                # a registration that is refused: a reached step that does not exist (after some that do), or an
+                # attacker id that is in use.  Whatever it leaves behind must be symmetric; the history goes on.
+                i = op[1] % n_att
+                if added[i]:
+                    continue
+                ids = [nodes[j % desc_n].id for j in op[2] if any(nodes[j % desc_n] is x for x in g.nodes)]
+                try:
+                    if op[3] == 'no-such-node' or not g.attackers:
+                        g.add_attacker(atts[i], reached_attack_steps=ids + [10 ** 6 + 7])
+                    else:
+                        g.add_attacker(atts[i], attacker_id=g.attackers[0].id, reached_attack_steps=ids)
+                except Exception:
+                    cnt('class:refused-add_attacker')
+                else:
+                    if any(x is atts[i] for x in g.attackers):
+                        added[i] = True
+                if any(x is atts[i] for x in g.attackers) != added[i]:
+                    return ('compromise:refused-add_attacker-registered-the-attacker', '%s: the call raised but the attacker is in graph.attackers' % where)
             elif kind == 'rm':
                 i = op[1] % n_att
                 if not added[i]:
@@ -180,6 +199,26 @@ def _check_attach(case, res, count=True):
     except TooExpensive:
         return None
     removed_names = set()
+    if variant == 'attach-again-after-regenerate':
+        # an entry point's node is missing at the first attach (it was removed); the graph is then regenerated, the
+        # node is back, and the attackers are attached again: they must get every entry point the model names
+        names0 = {a['id']: a['name'] for a in am.assets}
+        gone = False
+        for t in am.attackers:
+            for aid, steps in t['entry_points'][:2]:
+                n0 = g.get_node_by_full_name(names0[aid] + ':' + steps[0]) if steps else None
+                if n0 is not None:
+                    g.remove_node(n0)
+                    gone = True
+        try:
+            g.attach_attackers()
+            if gone and count:
+                res.count('class:first-attach-with-a-missing-entry-node')
+            g.regenerate_graph()
+        except TooExpensive:
+            return None
+        except Exception as exc:
+            return ('attach:raised-%s' % type(exc).__name__, 'attach_attackers / regenerate_graph raised %r' % (exc,))
     if variant == 'entry-node-removed':
         names0 = {a['id']: a['name'] for a in am.assets}
         for t in am.attackers:
@@ -276,6 +315,8 @@ def gen_history(rng, n, n_att):
         elif r < 0.85:
             ops.append(['add', rng.randrange(n_att), [rng.randrange(1000) for _ in range(rng.choice([0, 0, 1, 3, 8]))],
                         [rng.randrange(1000) for _ in range(rng.choice([0, 1, 2]))]])
+        elif r < 0.89:
+            ops.append(['addbad', rng.randrange(n_att), [rng.randrange(1000) for _ in range(rng.choice([1, 2, 4]))], rng.choice(['no-such-node', 'id-in-use'])])
         elif r < 0.97:
             ops.append(['rm', rng.randrange(n_att)])
         else:
@@ -333,7 +374,7 @@ def run(rng, res, tier, shard, nshards):
         if not budget.more() and tier == 'quick' and res.counters.get('attach-compared', 0) > 40:
             break
         case = hostile_attackers(rng, gen_case(rng, Cfg(max_depth=2, max_assets=5), MCfg(max_assets=6, attackers=0.0, hostile_names=0.2), corelang_share=0.06))
-        case['attach_variant'] = rng.choice(['plain', 'second-graph', 'copy', 'entry-node-removed'])
+        case['attach_variant'] = rng.choice(['plain', 'second-graph', 'copy', 'entry-node-removed', 'attach-again-after-regenerate'])
         f = check_attach(case, res)
         res.case(digest([case['spec'], case['amodel']]))
         if f:
